@@ -249,9 +249,16 @@ def cli_args(cfg, data, out, num_threads):
     return a
 
 
-def real_run(cfg, data, root, tag, num_threads, sched_seed, hash_seed, max_delay=15):
+def real_run(cfg, data, root, tag, num_threads, sched_seed, hash_seed, max_delay=15, reuse=False):
     work = os.path.join(root, tag)
-    os.makedirs(work)
+    if reuse:
+        # the identical command once more, in a fresh process, into the SAME working directory and output folder
+        try:
+            os.unlink(os.path.join(work, 'completion.log'))
+        except OSError:
+            pass
+    else:
+        os.makedirs(work)
     out = os.path.join(work, 'out')
     env = dict(os.environ, PYTHONHASHSEED=str(hash_seed), VERIF_REPO=REPO)
     cmd = [sys.executable, os.path.join(VERIF_DIR, 'vlib', 'c09_driver.py'), work, str(sched_seed), str(max_delay), '--'] + \
@@ -286,6 +293,12 @@ def oracle_real(case, rec):
         with ThreadPoolExecutor(max_workers=int(case.get('parallel', 6))) as ex:
             futs = [ex.submit(real_run, cfg, data, root, f'run{i}', nt, ss, hs) for i, (nt, ss, hs) in enumerate(case['runs'])]
             results = [f.result() for f in futs]
+            reruns = []
+            for i in case.get('rerun', []):
+                nt, ss, hs = case['runs'][i]
+                if results[i]['rows'] is not None:
+                    reruns.append((i, ex.submit(real_run, cfg, data, root, f'run{i}', nt, ss, hs, 15, True)))
+            reruns = [(i, f.result()) for i, f in reruns]
     finally:
         shutil.rmtree(root, ignore_errors=True)
     base = results[0]
@@ -297,6 +310,17 @@ def oracle_real(case, rec):
         if r['rc'] != 0 or r['rows'] is None:
             raise Violation(f'run {r["tag"]} (threads/schedule/hashseed={case["runs"][int(r["tag"][3:])]}) failed rc={r["rc"]}: '
                             f'{r["stderr"][-600:]}', kind='C09/run-failed')
+    for i, r2 in reruns:
+        rec.classes.append('rerun-into-same-output-folder')
+        a = case['runs'][i]
+        if r2['rc'] != 0 or r2['rows'] is None:
+            raise Violation(f'repeating run {i} (threads/schedule/hashseed={a}) into the same output folder failed rc={r2["rc"]}: '
+                            f'{r2["stderr"][-600:]}', kind='C09/run-failed')
+        if r2['rows'] != results[i]['rows']:
+            diff = [(x, y) for x, y in zip(results[i]['rows'], r2['rows']) if x != y][:3]
+            raise Violation(f'pairwise_ranks.tsv differs between two runs of the identical command (threads={a[0]}, schedule={a[1]}, '
+                            f'PYTHONHASHSEED={a[2]}) into the same output folder; flags={[k for k, v in cfg["flags"].items() if v]}; '
+                            f'first differing rows: {diff}', kind='C09/rerun')
     by_key = {}
     for i, r in enumerate(results):
         by_key.setdefault((case['runs'][i][0], case['runs'][i][1]), i)
@@ -366,7 +390,7 @@ def oracle_batching(case, rec):
 
 
 ORACLES = {'C09/batching': oracle_batching, 'C09/owned-schedule': oracle_l1, 'C09/real': oracle_real, 'C09/run-failed': oracle_real,
-           'C09/hash-seed': oracle_real, 'C09/pool-or-schedule': oracle_real}
+           'C09/hash-seed': oracle_real, 'C09/pool-or-schedule': oracle_real, 'C09/rerun': oracle_real}
 
 
 def run(ctx):
@@ -398,6 +422,10 @@ def run(ctx):
                                     'seed': int(rng.integers(0, 2**31))}})
     observed = []
     cases = [{'cfg': cfg, 'runs': runs, 'parallel': parallel} for cfg, runs in zip(cfgs, plans)]
+    for ci, case in enumerate(cases):
+        # the first run of every cap-binding input (quick: the second input) is repeated into its own output folder
+        if case['cfg']['flags'].get('cap'):
+            case['rerun'] = [0]
     with ThreadPoolExecutor(max_workers=3 if ctx.tier == 'quick' else 4) as ex:
         # the in-process batching cases change the cwd / module attributes: they run one after the other in ONE thread while
         # the real-pool cases (subprocesses) run in the others
